@@ -26,12 +26,29 @@ def shapes(h):
     return res
 
 
+_fib = {0: None, 1: (None, None)}
+
+
+def fib_shape(h):
+    if h not in _fib:
+        _fib[h] = (fib_shape(h - 1), fib_shape(h - 2))
+    return _fib[h]
+
+
 def count(s):
     return 0 if s is None else 1 + count(s[0]) + count(s[1])
 
 
+_hcache = {}
+
+
 def height(s):
-    return 0 if s is None else 1 + max(height(s[0]), height(s[1]))
+    if s is None:
+        return 0
+    k = id(s)
+    if k not in _hcache:
+        _hcache[k] = 1 + max(height(s[0]), height(s[1]))
+    return _hcache[k]
 
 
 def dump_shape(s, base=0):
@@ -154,6 +171,14 @@ def gen_cases(tier, seed):
                 ops += [f"load {d}", f"reins {2*i}", "trav"]
             ops += [f"load {d}", "trav"]
         yield (f"exh-h{h}", ops, f"exhaustive-height-{h}")
+    # deep trees: the sparsest AVL tree of height h (Fibonacci tree: every node's left subtree one taller) is where a single delete at the
+    # bottom of the short side makes the retrace rotate at EVERY level up to the root, and an insert at the bottom of the tall side changes
+    # every height on the way: heights 17-19 (4 180 - 10 945 nodes; thorough: up to 21 = 28 656 nodes)
+    for h in ((17, 18, 19) if tier == "quick" else (17, 18, 19, 20, 21)):
+        f = fib_shape(h)
+        d, n = dump_shape(f)
+        ops = [f"load {d}", f"del {2 * n}", "trav", f"load {d}", "ins 1", f"load {d}", f"del {2 * n}", f"del {2 * n - 2}", f"ins {2 * n + 1}", "ins -1", "trav"]
+        yield (f"deep-h{h}", ops, f"deep-height-{h}")
     if tier == "thorough":
         ss = shapes(5)
         chunk = 4000
@@ -262,7 +287,7 @@ def run(tier, seed, proof):
     res = common.Result()
     res.rule = ("cases: (1) every AVL shape of height<=4 (thorough: + every shape of height 5 with sampled ops) x every insert position (each with a node object whose link fields hold garbage and whose height "
                 "field holds 77 / 1 / 2 / 3 / 0: a recycled node that was a leaf, an inner node, or zeroed) x "
-                "every deletable node, loaded into both sides; (2) random insert/delete/duplicate histories. Each case's full tree dump "
+                "every deletable node, loaded into both sides; plus the sparsest (Fibonacci) trees of height 17-19 (thorough: -21) with a delete at the bottom of the short side and inserts at both ends; (2) random insert/delete/duplicate histories. Each case's full tree dump "
                 "(shape, keys, stored heights) after every op is compared model vs iv_avl.c and checked by a reference sorted-set oracle. "
                 "non-trivial = at least one rotation or early-stop happened; distinct by hash of the op file")
     res.assumptions = ["comparator is a strict total order on keys (int keys in the harness)", "parent pointers: modelled by Ivy.L0.AvlPtr (heap of nodes with parent/left/right/height; refinement to Ivy.L0.Avl proved in Ivy.Props.C16ptr) and additionally checked at run time by the harness", "uint8_t height modelled as Nat (an AVL tree of height 256 needs > 2^177 nodes)"]
